@@ -198,12 +198,35 @@ def perturb(seed, n_max):
   return keep
 
 
+def tree_fingerprint():
+  """Fingerprint (path, size, mtime) of every .py file of the pytype package under test.
+  Runs recorded against different fingerprints are runs of *different programs under test*
+  (somebody edited the checkout while the check was running) and must not be compared."""
+  import os
+  import pytype
+  root = os.path.dirname(os.path.abspath(pytype.__file__))
+  h = hashlib.sha256()
+  for d, dirs, files in os.walk(root):
+    dirs.sort()
+    if "typeshed" in dirs:
+      dirs.remove("typeshed")
+    for f in sorted(files):
+      if f.endswith((".py", ".pytd", ".pyi")):
+        try:
+          st = os.stat(os.path.join(d, f))
+        except OSError:
+          continue
+        h.update(f"{os.path.relpath(os.path.join(d, f), root)}:{st.st_size}:{st.st_mtime_ns};".encode())
+  return h.hexdigest()[:16]
+
+
 def run_config(programs, others, config):
   """programs: [{"id", "src"}]; config: dict(mode, j, reuse_loader, reverse, perturb, gc_disable).
   Returns {"results": {id: outputs}, "hash_probe": hash("pytype"), ...}."""
   import sys
   from pytype import load_pytd
   mon = install_monitor()
+  fp_start = tree_fingerprint()
   keep = perturb(config.get("perturb_seed", 0), config.get("perturb", 0))
   if config.get("gc_disable"):
     gc.disable()
@@ -225,7 +248,7 @@ def run_config(programs, others, config):
     results[p["id"]] = outputs(p["src"], opts if loader else None, loader)
     if config.get("gc_disable"):
       gc.collect()   # bound memory: no collection *during* an analysis, one between analyses
-  return {"results": results, "hash_probe": hash("pytype"), "hash_randomization": sys.flags.hash_randomization,
+  return {"results": results, "tree_fp": [fp_start, tree_fingerprint()], "hash_probe": hash("pytype"), "hash_randomization": sys.flags.hash_randomization,
           "kept_objects": len(keep), "others_analysed": n_other,
           "monitor": {"evals": mon.evals, "nonempty": mon.nonempty_evals, "errors_seen": mon.errors_seen,
                       "multi_traceback_groups": mon.multi_traceback_groups, "records": mon.records[:10]}}
